@@ -226,7 +226,7 @@ def gen_fn(rng, used):
     body = rng.choice(BODIES)
     ret = "None" if rng.random() < 0.6 else rng.choice(["Unit", "int", "bool", "Option[int]", "Result[None, str]", "Result[None, str]"])
     if ret in ("None", "Unit") and rng.random() < 0.1:
-        body = "x = 1\nif x == 1:\n    return\n" + body
+        body = "early = 1\nif early == 2:\n    return\n" + body
     return Fn(name, decs, params, body, is_async=(rng.random() < 0.04), ret=ret, pub=(rng.random() < 0.08),
               doc=("Docstring first." if rng.random() < 0.12 else None))
 
